@@ -9,7 +9,7 @@ def main():
     prog = dump_ssa('c01')
     thorough = ck.tier == 'thorough'
     maxc = 2 if thorough else 1
-    keylens = [1, 16, 31, 32] if thorough else [31, 32]
+    keylens = [1, 16, 31, 32] if thorough else [32]
     ck.bounds.append('sign then verify: private key lengths %s (contents symbolic), digest 32 symbolic bytes, up to %d nonce candidates; id/message-level entry points with id of 0/16 bytes and message of 0/5 bytes' % (keylens, maxc))
     ck.outside.append('more than %d consecutive rejected nonce candidates' % maxc)
     ck.assumptions += sm2model.CONTRACTS
